@@ -50,14 +50,14 @@ def c10(tier):
     return [_dj("C10", "CoseKey", key), _dj("C10", "CoseKeySet", ks)]
 
 
-def c12(tier):
+def c12_decode(tier):
     """Duplicate labels on decode, every pair of positions, every nesting position."""
     k = ("dup",)
     if tier == "quick":
-        m2 = dict(max_array=3, max_map=2, max_text=2, max_depth=3, max_total_entries=2, max_total_items=3)
-        m3 = dict(max_array=2, max_map=3, max_text=1, max_depth=3, max_total_entries=3, max_total_items=2)
+        m2 = dict(max_array=2, max_map=2, max_text=1, max_depth=3, max_total_entries=2, max_total_items=2)
+        m3 = dict(max_array=1, max_map=3, max_text=1, max_depth=2, max_total_entries=3, max_total_items=1)
         nest = dict(max_array=4, max_nested_array=3, max_map=2, max_text=1, max_depth=5, max_total_entries=2,
-                    max_total_items=8)
+                    max_total_items=7)
     else:
         m2 = dict(max_array=3, max_map=3, max_text=2, max_depth=3, max_total_entries=3, max_total_items=3)
         m3 = dict(max_array=2, max_map=4, max_text=1, max_depth=3, max_total_entries=4, max_total_items=2)
@@ -88,13 +88,127 @@ def c15(tier):
 def c18(tier):
     if tier == "quick":
         cl = dict(max_array=2, max_map=2, max_text=1, max_depth=3, max_total_entries=2, max_total_items=2)
-        kdf = dict(max_array=6, max_nested_array=4, max_map=1, max_text=1, max_depth=4, max_total_entries=1,
-                   max_total_items=16)
+        kdf = dict(max_array=6, max_nested_array=3, max_map=0, max_text=1, max_depth=4, max_total_entries=0,
+                   max_total_items=14)
     else:
         cl = dict(max_array=2, max_map=3, max_text=2, max_depth=3, max_total_entries=3, max_total_items=2)
         kdf = dict(max_array=7, max_nested_array=4, max_map=1, max_text=1, max_depth=4, max_total_entries=1,
-                   max_total_items=18)
+                   max_total_items=16)
     sub = dict(max_array=5, max_nested_array=3, max_map=1, max_text=1, max_depth=4, max_total_entries=1,
                max_total_items=8)
     return [_dj("C18", "ClaimsSet", cl), _dj("C18", "CoseKdfContext", kdf), _dj("C18", "PartyInfo", sub),
             _dj("C18", "SuppPubInfo", sub)]
+
+
+def _sj(prop, tname, pol, built=False):
+    return ("jobs_struct", "structure_job", dict(prop=prop, tname=tname, policy=pol, built=built))
+
+
+def _struct_pol(tier, top):
+    if tier == "quick":
+        return dict(max_array=top, max_nested_array=3, max_map=1, max_text=1, max_depth=4, max_total_entries=1,
+                    max_total_items=top + 4)
+    return dict(max_array=top, max_nested_array=4, max_map=2, max_text=1, max_depth=5, max_total_entries=2,
+                max_total_items=top + 8)
+
+
+def c03(tier):
+    jobs = [("jobs_struct", "free_structure_job", dict(prop="C03", which="sig"))]
+    for t in ("CoseSign1", "CoseSign"):
+        for built in (False, True):
+            jobs.append(_sj("C03", t, _struct_pol(tier, 4), built))
+    return jobs
+
+
+def c04(tier):
+    jobs = [("jobs_struct", "free_structure_job", dict(prop="C04", which="mac"))]
+    for t, top in (("CoseMac0", 4), ("CoseMac", 5)):
+        for built in (False, True):
+            jobs.append(_sj("C04", t, _struct_pol(tier, top), built))
+    return jobs
+
+
+def c05(tier):
+    jobs = [("jobs_struct", "free_structure_job", dict(prop="C05", which="enc"))]
+    for t, top in (("CoseEncrypt0", 3), ("CoseEncrypt", 4), ("CoseRecipient", 4)):
+        for built in (False, True):
+            jobs.append(_sj("C05", t, _struct_pol(tier, top), built))
+    return jobs
+
+
+def c06(tier):
+    steps = 3 if tier == "quick" else 4
+    return [("jobs_struct", "history_job", dict(prop="C06", tname=t, steps=steps))
+            for t in ("CoseSign1", "CoseSign", "CoseMac0", "CoseMac", "CoseEncrypt0", "CoseEncrypt", "CoseRecipient")]
+
+
+ALL_TYPES = STRUCTS + ["Header", "CoseKey", "CoseKeySet", "ClaimsSet", "PartyInfo", "SuppPubInfo", "CoseKdfContext"]
+
+
+def _rt_pol(tier, t):
+    top = {"CoseMac": 5, "CoseKdfContext": 5, "CoseKeySet": 2}.get(t, 4)
+    if tier == "quick":
+        return dict(max_array=top, max_nested_array=3, max_map=2, max_text=1, max_depth=4, max_total_entries=2,
+                    max_total_items={"CoseKdfContext": 13}.get(t, top + 4))
+    return dict(max_array=top, max_nested_array=4, max_map=3, max_text=2, max_depth=5, max_total_entries=3,
+                max_total_items={"CoseKdfContext": 14}.get(t, top + 8))
+
+
+def _rj(prop, t, tier, built=False):
+    return ("jobs_encode", "roundtrip_job", dict(prop=prop, tname=t, policy=_rt_pol(tier, t), built=built))
+
+
+def c07(tier):
+    return [_rj("C07", t, tier) for t in ALL_TYPES]
+
+
+def c02(tier):
+    """Retention on decode is part of every decode-vs-reference comparison; here: re-encoding and
+    the structure helpers use exactly the retained bytes, at every nesting position."""
+    jobs = [_rj("C02", t, tier) for t in STRUCTS + ["SuppPubInfo", "CoseKdfContext"]]
+    for t, top in (("CoseSign1", 4), ("CoseSign", 4), ("CoseMac0", 4), ("CoseEncrypt0", 3), ("CoseRecipient", 4)):
+        jobs.append(_sj("C02", t, _struct_pol(tier, top), False))
+    jobs.append(_dj("C02", "CoseSign", _struct_pol(tier, 4), tag=":retention"))
+    jobs.append(_dj("C02", "CoseEncrypt", _struct_pol(tier, 4), tag=":retention"))
+    return jobs
+
+
+def c11(tier):
+    n = 1 if tier == "quick" else 2
+    jobs = [_rj("C11", t, tier, built=True) for t in ALL_TYPES]
+    jobs += [("jobs_encode", "encode_job", dict(prop="C11", tname=t, n_extra=n)) for t in ("Header", "CoseKey", "ClaimsSet")]
+    return jobs
+
+
+def c12(tier):   # noqa: F811  (decode side defined above is extended with the encode side)
+    jobs = c12_decode(tier)
+    n = 2 if tier == "quick" else 3
+    jobs += [("jobs_encode", "encode_job", dict(prop="C12", tname=t, n_extra=n)) for t in ("Header", "CoseKey", "ClaimsSet")]
+    return jobs
+
+
+def c13(tier):
+    pol = _rt_pol(tier, "x")
+    pol = dict(pol, max_total_entries=1)
+    return [("jobs_misc", "api_job", dict(prop="C13", tname=t, policy=dict(pol, max_array={"CoseMac": 5, "CoseKdfContext": 5}.get(t, 4),
+                                                                           max_total_items={"CoseKdfContext": 13}.get(t, 9))))
+            for t in ALL_TYPES]
+
+
+def c14(tier):
+    pol = dict(_rt_pol(tier, "x"), max_total_entries=1)
+    jobs = [("jobs_misc", "api_job", dict(prop="C14", tname=t, policy=dict(pol, max_array=5 if t == "CoseMac" else 4)))
+            for t in ("CoseSign", "CoseSign1", "CoseMac", "CoseMac0", "CoseEncrypt", "CoseEncrypt0")]
+    # untagged decoding of every structure type rejects every tagged item: part of C09's exploration,
+    # repeated here with a top-level item that may be a tag
+    pol2 = dict(max_array=5, max_nested_array=3, max_map=0, max_text=1, max_depth=3, max_total_entries=0, max_total_items=8)
+    jobs += [_dj("C14", t, pol2, tag=":untagged") for t in STRUCTS]
+    return jobs
+
+
+def c16(tier):
+    return [("jobs_misc", "order_job", dict(prop="C16", text_max=2 if tier == "quick" else 3))]
+
+
+def c20(tier):
+    return [("jobs_misc", "canonicalize_job", dict(prop="C20", n_params=2 if tier == "quick" else 3))]
